@@ -1,5 +1,7 @@
 import LJT.Proofs.Robust
 import LJT.Proofs.ScanScript
+import LJT.Proofs.ScanScript2
+import LJT.Model.ProgHuff
 /-! # C17 - the compressor never crashes or emits bad output for any parameter combination
 
 The decision logic that can be stated on the model: the size bound that keeps
@@ -58,5 +60,30 @@ example : (match validateScript 8 1 [⟨1, [0, 0, 0, 0], 0, 0, 0, 1⟩, ⟨1, [0
     ⟨1, [0, 0, 0, 0], 1, 63, 2, 1⟩, ⟨1, [0, 0, 0, 0], 0, 0, 1, 0⟩, ⟨1, [0, 0, 0, 0], 1, 63, 1, 0⟩] with
     | .ok .progressive => true | _ => false) = true := by
   decide +kernel
+
+
+open LJT.ScanScript in
+/-- **Accepted sequential and lossless scan scripts are complete and free of repetition**: if `validate_script`
+accepts a script in a mode other than progressive, the components its scans name, in order, are a rearrangement of
+`0 .. num_components-1` - every component of the frame is sent, none twice. -/
+theorem accepted_nonprogressive_script_sends_every_component_once (prec nc : Nat) (scans : List ScanScript.Scan) (m : Mode)
+    (hm : m ≠ .progressive) (h : validateScript prec nc scans = .ok m) :
+    (scans.flatMap ScanScript.Scan.comps).Perm (List.range nc) :=
+  accepted_nonprogressive_script_is_complete prec nc scans m hm h
+
+/-- a script in the notation of Model/ProgHuff.lean as `jpeg_scan_info` records -/
+def toScans (l : List (List Nat × Nat × Nat × Nat × Nat)) : List ScanScript.Scan :=
+  l.map fun (cis, ss, se, ah, al) => ⟨Int.ofNat cis.length, ((cis ++ [0, 0, 0, 0]).take 4).map (fun (c : Nat) => Int.ofNat c),
+    Int.ofNat ss, Int.ofNat se, Int.ofNat ah, Int.ofNat al⟩
+
+def acceptedProg (prec nc : Nat) (s : List ScanScript.Scan) : Bool :=
+  match ScanScript.validateScript prec nc s with | .ok .progressive => true | _ => false
+
+/-- **The library's own progression script passes its own validator**: `jpeg_simple_progression` (as modelled in
+Model/ProgHuff.lean and tied byte for byte by `progfile`) for 1 to 4 components, at 8 and 12 bits - and hence, by
+`accepted_scan_script_is_decodable`, decodes without a progression error or warning. -/
+theorem simple_progression_is_accepted : ∀ nc ∈ [1, 2, 3, 4],
+    acceptedProg 8 nc (toScans (LJT.ProgHuff.simpleProgression nc)) = true ∧
+    acceptedProg 12 nc (toScans (LJT.ProgHuff.simpleProgression nc)) = true := by decide +kernel
 
 end LJT.Props.C17
